@@ -30,11 +30,12 @@ def main():
 
     def wrapper(step):
         enter_store(step)
-        key = (step["f"], step.get("kind", "function"), tuple(step.get("ignore") or ()), bool(step.get("compress")), step.get("frozen"), step.get("store", ""), bool(step.get("wrapped")), bool(step.get("redecorate")))
+        key = (step["f"], step.get("kind", "function"), tuple(step.get("ignore") or ()), bool(step.get("compress")), step.get("frozen"), step.get("store", ""), bool(step.get("wrapped")), bool(step.get("redecorate")), int(step.get("verbose", 0)))
         if key not in wrappers:
-            ck = (bool(step.get("compress")), step.get("store", ""))
+            ck = (bool(step.get("compress")), step.get("store", ""), int(step.get("verbose", 0)))
             if ck not in mems:
-                mems[ck] = joblib.Memory("relcache" if ck[1].startswith("_REL@") else prog["root"] + step.get("store", ""), verbose=0, compress=ck[0])
+                # (messages of a verbose Memory go to stdout: the reader of this program's output only takes the JSON lines)
+                mems[ck] = joblib.Memory("relcache" if ck[1].startswith("_REL@") else prog["root"] + step.get("store", ""), verbose=ck[2], compress=ck[0])
             kind = step.get("kind", "function")
             if kind == "method":
                 target = getattr(sigmod, "INST_" + step["f"]).m
